@@ -352,7 +352,7 @@ def effective_hints(ppos, h):
     return int(ap1), int(ap2), op
 
 
-DECOYS = ["near-miss", "mirror", "element", "loose", "loose"]
+DECOYS = ["near-miss", "mirror", "element", "loose", "loose", "out-of-plane"]
 
 
 @st.composite
@@ -415,6 +415,20 @@ def planted(draw, max_copies=4, pattern_classes=None, cell_classes=None, with_de
                 j = draw(st.integers(0, n - 1))
                 u = draw(unit_vector())
                 q[j] = q[j] + u * atol * draw(st.floats(4.0, 12.0))
+            elif kind == "out-of-plane":
+                # one atom moved along the normal of a planar (or across the axis of a collinear) pattern by 2-3.4
+                # tolerances: pair distances change only to second order, so the candidate passes every distance
+                # filter although one atom is clearly misplaced
+                c0 = q - q.mean(axis=0)
+                u_, s_, vt = np.linalg.svd(c0)
+                if len(q) >= 3 and s_[-1] < 1e-6 * max(1.0, s_[0]):
+                    nrm = vt[-1]
+                    j = draw(st.integers(0, n - 1))
+                    q[j] = q[j] + nrm * atol * draw(st.floats(2.05, 3.4)) * draw(st.sampled_from([-1.0, 1.0]))
+                else:
+                    kind = "near-miss"
+                    j = draw(st.integers(0, n - 1))
+                    q[j] = q[j] + draw(unit_vector()) * atol * draw(st.floats(4.0, 12.0))
             elif kind == "mirror":
                 q[:, 0] = -q[:, 0]
             elif kind == "element":
